@@ -24,6 +24,10 @@ def run(prog, tier):
     CR.frame_reader_rule(prog, res, 'codec-agree/frame-read')
     CR.data_offset_rule(prog, res, 'codec-agree/data-offset')
     CR.copy_completeness_rule(prog, res)
+    # the data section is sized from the header after updateHeader() reconciled it with the parameters just read:
+    # the reconciliation table is part of what a load depends on
+    import p_c05
+    p_c05.sync_table_rule(prog, res, rule='load-reconcile')
     # strings are stored trimmed: the trimmer must empty a cell made only of padding
     import p_c11
     p_c11.check_trimmer(prog, res, 'string-trim')
